@@ -52,6 +52,14 @@ func c18Scenarios(tier string) []c07Params {
 		{Name: "evalsha-vs-gets", Pre: append(append([][]string{}, pre...), []string{"SCRIPT", "LOAD", scr}), Conns: [][][]string{{{"EVALSHA", Sha1Sum(scr), "0"}}, two("GET k a", "GET k b")}, Model: map[string][][]string{"0.0": scrModel}, Prop: "C18"},
 		{Name: "evalrosha-vs-set", Pre: append(append([][]string{}, pre...), []string{"SCRIPT", "LOAD", "return {tile38.call('GET','k','a'), tile38.call('GET','k','a')}"}), Conns: [][][]string{{{"EVALROSHA", Sha1Sum("return {tile38.call('GET','k','a'), tile38.call('GET','k','a')}"), "0"}}, one("SET k a POINT 3 3")}, Prop: "C18"},
 	}
+	// two read-only scripts at once (shared lock, interpreters from one pool, one script
+	// cache): function-entry scheduling points, one preemption (thorough: two)
+	roA := "return {tile38.call('GET','k','a'), ARGV[1]}"
+	roB := "return {tile38.call('GET','k','b'), ARGV[1]}"
+	scs = append(scs,
+		c07Params{Name: "fine:evalro-vs-evalro", Pre: pre, Conns: [][][]string{{{"EVALRO", roA, "0", "argA"}}, {{"EVALRO", roB, "0", "argB"}}}, Model: map[string][][]string{"0.0": {}, "1.0": {}}, Fine: true, Prop: "C18"},
+		c07Params{Name: "fine:evalro-vs-whereeval", Pre: pre, Conns: [][][]string{{{"EVALRO", roA, "0", "argA"}}, {{"SCAN", "k", "WHEREEVAL", "return FIELDS.f == 1 and ARGV[1] == 'x'", "1", "x", "IDS"}}}, Model: map[string][][]string{"0.0": {}}, Fine: true, Prop: "C18"},
+	)
 	if tier == "thorough" {
 		scs = append(scs,
 			c07Params{Name: "eval-rw-vs-set", Pre: pre, Conns: [][][]string{{{"EVAL", scrRW, "0"}}, one("SET k a POINT 1 1"), one("GET k c")}, Model: map[string][][]string{"0.0": scrRWModel}, Prop: "C18"},
@@ -84,6 +92,13 @@ func checkC18Sched(job *Job, res *Result) {
 		p := p
 		sc := schedScenario{Name: "c18." + p.Name, Params: p, Run: func(prefix []int) schedOut {
 			o := c07Run(job, p, prefix)
+			if strings.HasPrefix(p.Name, "fine:evalro") && o.VSig == "" && o.Err == "" {
+				// every script gets its own argument back, not the other call's
+				if strings.Contains(o.Obs, "0.0=") && !strings.Contains(o.Obs, "argA") || strings.Contains(o.Obs, "1.0=") && p.Name == "fine:evalro-vs-evalro" && !strings.Contains(o.Obs, "argB") {
+					o.VSig = "C18/script-arguments-mixed-up:" + p.Name
+					o.VDetail = "a script did not get its own ARGV back: " + o.Obs
+				}
+			}
 			if p.Name == "evalro-vs-set" && o.VSig == "" && o.Err == "" {
 				// both GETs inside one EVALRO must agree
 				if i := strings.Index(o.Obs, "0.0=["); i >= 0 {
@@ -102,7 +117,11 @@ func checkC18Sched(job *Job, res *Result) {
 		if p.Name == "evalro-vs-set" {
 			p.Model = map[string][][]string{"0.0": {}}
 		}
-		st := exploreSched(job, res, sc, bound)
+		b := bound
+		if p.Fine {
+			b = bound - 1
+		}
+		st := exploreSched(job, res, sc, b)
 		res.Extra[sc.Name] = map[string]any{"execs": st.Execs, "outcomes": len(st.Outcomes), "max_choice_points": st.MaxPoints}
 		if res.EngineError != "" {
 			return
